@@ -408,29 +408,32 @@ func (e *Engine) specBuiltin(env *Env, name string, ex *SExpr) (Val, bool) {
 			return Val{}, false
 		}
 		slt, ok := sv.T.Underlying().(*types.Slice)
-		if !ok || sortOf(slt.Elem()) != "Int" {
-			env.errf("elems() needs a slice of integers")
+		if !ok || (sortOf(slt.Elem()) != "Int" && sortOf(slt.Elem()) != "Str") {
+			env.errf("elems() needs a slice of integers or strings")
 			return Val{}, false
 		}
+		es := sortOf(slt.Elem())
+		fn, fidx := "elems!"+es, "elemsIdx!"+es
 		hn, hs := elemHeapName(slt.Elem())
 		row := sel(env.heap(hn, hs), slRef(sv.S))
 		off := slOff(sv.S)
-		reg.declareFun("elems!Int", []string{"(Array Int Int)", "Int", "Int"}, "(Array Int Bool)")
+		rowSort, setSort := fmt.Sprintf("(Array Int %s)", es), fmt.Sprintf("(Array %s Bool)", es)
+		reg.declareFun(fn, []string{rowSort, "Int", "Int"}, setSort)
 		ckey := row + "|" + off
 		rn, seen := env.st.elemsDone[ckey]
 		if !seen {
-			rn = env.st.freshConst("elemsrow", "(Array Int Int)")
+			rn = env.st.freshConst("elemsrow", rowSort)
 			env.st.assume(eq(rn, row))
-			env.st.assume(fmt.Sprintf("(= (elems!Int %s %s 0) ((as const (Array Int Bool)) false))", rn, off))
+			env.st.assume(fmt.Sprintf("(= (%s %s %s 0) ((as const %s) false))", fn, rn, off, setSort))
 			// elems(s, n) is the set of the first n elements: characterised by the element-set lemma (valid by induction on n for
 			// the recursive definition elems(s, n) = elems(s, n-1) + {s[n-1]}); the witness index is a Skolem function. The
 			// recursive definition itself is not given to the solver (it is a matching loop).
-			reg.declareFun("elemsIdx!Int", []string{"(Array Int Int)", "Int", "Int", "Int"}, "Int")
+			reg.declareFun(fidx, []string{rowSort, "Int", "Int", es}, "Int")
 			e.assumptions["element-set lemma (induction on n, not machine-checked): x in elems(s, n) <=> some index i < n has s[i] == x"] = true
-			env.st.assume(fmt.Sprintf("(forall ((n!e Int) (x!e Int)) (! (=> (select (elems!Int %s %s n!e) x!e) (and (<= 0 (elemsIdx!Int %s %s n!e x!e)) (< (elemsIdx!Int %s %s n!e x!e) n!e) (= (select %s %s) x!e))) :pattern ((select (elems!Int %s %s n!e) x!e))))",
-				rn, off, rn, off, rn, off, rn, ix(off, fmt.Sprintf("(elemsIdx!Int %s %s n!e x!e)", rn, off)), rn, off))
-			env.st.assume(fmt.Sprintf("(forall ((n!e Int) (i!e Int)) (! (=> (and (<= 0 i!e) (< i!e n!e)) (select (elems!Int %s %s n!e) (select %s %s))) :pattern ((elems!Int %s %s n!e) (select %s %s))))",
-				rn, off, rn, ix(off, "i!e"), rn, off, rn, ix(off, "i!e")))
+			env.st.assume(fmt.Sprintf("(forall ((n!e Int) (x!e %s)) (! (=> (select (%s %s %s n!e) x!e) (and (<= 0 (%s %s %s n!e x!e)) (< (%s %s %s n!e x!e) n!e) (= (select %s %s) x!e))) :pattern ((select (%s %s %s n!e) x!e))))",
+				es, fn, rn, off, fidx, rn, off, fidx, rn, off, rn, ix(off, fmt.Sprintf("(%s %s %s n!e x!e)", fidx, rn, off)), fn, rn, off))
+			env.st.assume(fmt.Sprintf("(forall ((n!e Int) (i!e Int)) (! (=> (and (<= 0 i!e) (< i!e n!e)) (select (%s %s %s n!e) (select %s %s))) :pattern ((%s %s %s n!e) (select %s %s))))",
+				fn, rn, off, rn, ix(off, "i!e"), fn, rn, off, rn, ix(off, "i!e")))
 			nd := make(map[string]string, len(env.st.elemsDone)+1)
 			for k, v := range env.st.elemsDone {
 				nd[k] = v
@@ -438,7 +441,7 @@ func (e *Engine) specBuiltin(env *Env, name string, ex *SExpr) (Val, bool) {
 			nd[ckey] = rn
 			env.st.elemsDone = nd
 		}
-		return Val{S: fmt.Sprintf("(elems!Int %s %s %s)", rn, off, n.S), T: &ghostMapType{key: slt.Elem(), elem: tBool}}, true
+		return Val{S: fmt.Sprintf("(%s %s %s %s)", fn, rn, off, n.S), T: &ghostMapType{key: slt.Elem(), elem: tBool}}, true
 	case "same":
 		// same(a, b): two slices have the same header (backing array, offset, length)
 		a, b := arg(0), arg(1)
